@@ -890,3 +890,39 @@ CONT_RULE = (WORLD_RULE + ". Container operations interleaved with the world his
              "order of containers vs worlds varies")
 CONT_ASSUME = ["panics raised by user code (Clone/Drop impls of components) and the unwinding they cause are not modelled",
                "allocator events of the arenas are not compared in this engine (see C04)"]
+
+
+# ----------------------------------------------------------------------------- engine 18: ChangeTracker
+def tracker_case(rnd, rounds):
+    c = [18]
+    nh = 0
+    for _ in range(rounds):
+        for _ in range(rnd.randrange(0, 9)):
+            k = rnd.random()
+            if k < 0.25 or nh == 0:
+                c += [1, rnd.randrange(0, 4)]; nh += 1
+            elif k < 0.35:
+                c += [2]; nh += 1
+            elif k < 0.65:
+                c += [3, rnd.randrange(nh), rnd.randrange(0, 4)]     # overwrite with equal or different value
+            elif k < 0.85:
+                c += [4, rnd.randrange(nh)]                          # remove (then maybe re-add later)
+            else:
+                c += [5, rnd.randrange(nh)]                          # despawn; the id may be reused by a spawn
+        # consumption script: any subset and order of added/changed/removed, fully, partially or not at all
+        reads = []
+        for _ in range(rnd.choice([0, 1, 2, 3, 3, 3, 4])):
+            reads.append((rnd.randrange(3), rnd.choice([255, 255, 255, 0, 1, 2])))
+        c += [6, len(reads)] + [x for r in reads for x in r]
+    c += [6, 3, 0, 255, 1, 255, 2, 255]
+    return c
+
+
+def gen_tracker(tier, seed):
+    rnd = random.Random(seed)
+    for _ in range(3000 if tier == "quick" else 60000):
+        yield tracker_case(rnd, rnd.randrange(1, 7))
+
+
+def nontrivial_tracker(case, obs):
+    return len(case) > 25
